@@ -96,7 +96,7 @@ def describe(pid, cfg, w, ctx):
         s = ''.join({0: '0', 1: '1', 2: 'c'}[x] for x in inp)
         rep['input_text'] = "bit ops " + s
         rep['harness_cmd'] = ['replay', 'bits', s]
-        rep['expected'] = tok_ps(w['expected'], en)
+        rep['expected'] = tok_ps(w['expected'], en) if w['expected'] != [9] else 'a value, not a panic'
         rep['model_actual'] = tok_ps(w['actual'], en)
     elif kind in ('bytes1', 'bytes2'):
         rep['input_text'] = "bytes " + ' '.join('%02x' % b for b in inp)
